@@ -1627,6 +1627,8 @@ impl<'a> StorageWrite<'a> {
     pub fn write(
         &mut self, data: &[u8]
     ) -> Result<(), ArchiveError> {
+        #[cfg(routinator_verif)]
+        crate::verif::kill_point("archive-write-piece");
         match self.0 {
             #[cfg(unix)]
             WriteInner::Mmap { ref mut mmap, ref mut pos } => {
